@@ -16,7 +16,7 @@ import (
 
 var kinds = []string{"prep", "start", "stop", "run-worker", "start-worker", "service-worker", "task-queue", "task-schedule",
 	"mt-run-high", "mt-run-medium", "mt-run-low", "mt-start-high", "mt-start-medium", "mt-start-low", "hook"}
-var values = []string{"nil", "error", "string", "index", "nilmap", "struct", "typednil", "uncomparable"}
+var values = []string{"nil", "error", "string", "index", "nilmap", "struct", "typednil", "uncomparable", "moduleerror"}
 
 func scenarios(c *vlib.Ctx) []*slib.Scn {
 	var out []*slib.Scn
@@ -37,6 +37,10 @@ func scenarios(c *vlib.Ctx) []*slib.Scn {
 		for _, v := range []string{"error", "uncomparable", "struct"} {
 			add(modules.C06Params{Kind: k, Value: v, Panics: 2}, 0)
 		}
+	}
+	// the error reporting channel is full and nobody receives: the panic must still be contained, returned and accounted
+	for _, k := range kinds {
+		add(modules.C06Params{Kind: k, Value: "string", FullCh: true}, 0)
 	}
 	// a service worker panics, the module is disabled during the back-off and enabled again before any management pass
 	for _, n := range []int{1, 2} {
@@ -71,7 +75,7 @@ func scenarios(c *vlib.Ctx) []*slib.Scn {
 
 func main() {
 	vlib.Main("C06", "model_checking", func(c *vlib.Ctx) {
-		c.Rule("complete (execution kind x panic value) table (15 kinds x 8 values, incl. a value of an uncomparable type) under the default schedule, every work kind panicking twice in a row, a service worker whose module is disabled and re-enabled during the back-off, plus for every kind the panicking item among 1-2 healthy items with all interleavings within the deviation bound, on the source-instrumented modules package; " +
+		c.Rule("complete (execution kind x panic value) table (15 kinds x 9 values, incl. a value of an uncomparable type and a *ModuleError), every kind with a full error reporting channel that nobody reads, under the default schedule, every work kind panicking twice in a row, a service worker whose module is disabled and re-enabled during the back-off, plus for every kind the panicking item among 1-2 healthy items with all interleavings within the deviation bound, on the source-instrumented modules package; " +
 			"distinct_nontrivial = distinct observation traces per scenario; API part: every handler kind x 8 panic values x stage x method x dev mode with follow-up requests and all depth-2 (thorough 3) histories through the real mainHandler.ServeHTTP")
 		c.Assume("sequential consistency; data-race freedom outside the instrumented synchronisation operations; API request handlers are covered by the sequential api part of this check")
 		if c.Replay != "" {
